@@ -119,7 +119,7 @@ PROOFS = [
     # extract_back(bytes, buf) and memcpy_iov: contracts written (iov.c.in) but no back end finished within 25 min -> not listed
     Proof('extract_front_continuous', 'iov.c', 'h_extract_front_continuous', kind='L', min_obligations=10, **CV),
     Proof('extract_back_continuous', 'iov.c', 'h_extract_back_continuous', kind='L', min_obligations=10, **CV),
-    Proof('slice', 'iov.c', 'h_slice', kind='L', min_obligations=10, **CV),
+    # slice: contract written in iov.c.in (two loops); cvc5 did not finish in 15 min -> not listed (see DESIGN §6 C14)
     Proof('lemma/pre_mono', 'iov.c', 'lemma_pre_mono', kind='L', min_obligations=3, **CV),
 ]
 NATIVES = [Native('native', 'native.cpp', args_quick=[300000], args_thorough=[20000000], timeout=1800, link_photon=True)]
